@@ -1431,7 +1431,7 @@ def _run(ctx):
         bobs = Obs()
         bdir = os.path.join(ctx.scratch, "b%d" % batch)
         os.makedirs(bdir)
-        reg, vcases, vraw = phase_synth(ctx, bobs, ctx.n(quick=24, thorough=40), bdir)
+        reg, vcases, vraw = phase_synth(ctx, bobs, ctx.n(quick=30, thorough=40), bdir)
         merge(ctx, bobs)
         synth_gen = bobs.gen_cases
         n_synth_trails += bobs.trails
